@@ -546,7 +546,33 @@ def _array_lex_cmp(ex, callee, argv):
     return res
 
 
+def _is_empty(ex, callee, argv):
+    v = ex.load(argv[0]) if isinstance(argv[0], Ref) and argv[0].rng is None else None
+    if isinstance(v, Agg) and v.name == "SVec":
+        raise Unsupported("is_empty on symbolic-length vector")
+    return Sc(ex.slice_len(argv[0]) == 0, "bool")
+
+
+def _box_new_uninit(ex, callee, argv):
+    """Box<MaybeUninit<[T; N]>>: the lowering of vec![a, b, ..] writes through (*ptr).1.0.0"""
+    inner = Agg([None, Agg([Agg([None], name="MaybeDangling")], name="ManuallyDrop")], name="MaybeUninit")
+    cell = Cell(inner, "box")
+    return Agg([Agg([Ref(cell, (), None, True)], name="Unique")], name="Box")
+
+
+def _box_into_vec(ex, callee, argv):
+    bx = argv[0]
+    r = bx.f[0].f[0]
+    arr = ex.load(r).f[1].f[0].f[0]
+    if not isinstance(arr, Agg):
+        raise Unsupported("uninitialised box turned into a Vec")
+    return Agg([deep(x) for x in arr.f], name="Vec")
+
+
 TABLE = [
+    (re.compile(r"^Box::new_uninit$"), _box_new_uninit),
+    (re.compile(r"^std::boxed::box_assume_init_into_vec_unsafe$"), _box_into_vec),
+    (re.compile(r"^(core::slice::<impl \[\w+\]>|Vec|core::str::<impl str>)::is_empty$"), _is_empty),
     (re.compile(r"^(rand::)?thread_rng$"), _thread_rng),
     (re.compile(r"^<ThreadRng as RngCore>::fill_bytes$"), _fill_bytes),
     (re.compile(r"^<\[\w+; \d+\] as PartialOrd>::(lt|le|gt|ge)$"), _array_lex_cmp),
